@@ -184,6 +184,7 @@ type flattener struct {
 	listpos int // lists spelled by numeric positions
 	maxSeg  int
 	multi   int // >= 2 dotted keys with the same first segment in one map
+	deep    int // a dictionary below the folded edge is divided between dotted and nested part
 }
 
 func (f *flattener) dict(n *model.Node, depth int) *sp {
@@ -207,25 +208,18 @@ func (f *flattener) dict(n *model.Node, depth int) *sp {
 
 func (f *flattener) emit(prefix string, segs int, c *model.Node, out *[]ent, depth int) {
 	switch {
-	case c.IsSub() && len(c.D) > 0 && len(c.A) == 0 && !c.HasA && f.r.Intn(2) == 0:
-		var kept []string
-		folded := 0
-		for _, k2 := range c.SortedKeys() {
-			if f.r.Intn(3) > 0 {
-				f.emit(prefix+"."+k2, segs+1, c.D[k2], out, depth)
-				folded++
-			} else {
-				kept = append(kept, k2)
-			}
+	case pureDict(c) && f.r.Intn(2) == 0:
+		// one part of the sub-tree is folded into dotted keys, the rest stays
+		// nested under the prefix; a deeper dictionary may be divided between
+		// the two parts ({"a.b.x":1, "a":{"b":{"y":2}}})
+		fold, keep := f.divide(c)
+		for _, k2 := range fold.SortedKeys() {
+			f.emit(prefix+"."+k2, segs+1, fold.D[k2], out, depth)
 		}
-		if len(kept) > 0 {
-			rest := model.Dict()
-			for _, k2 := range kept {
-				rest.D[k2] = c.D[k2]
-			}
+		if len(keep.D) > 0 {
 			f.note(prefix, segs, depth)
-			*out = append(*out, ent{prefix, f.dict(rest, depth+1)})
-			if folded > 0 {
+			*out = append(*out, ent{prefix, f.dict(keep, depth+1)})
+			if len(fold.D) > 0 {
 				f.split++
 			}
 		}
@@ -238,6 +232,37 @@ func (f *flattener) emit(prefix string, segs int, c *model.Node, out *[]ent, dep
 		f.note(prefix, segs, depth)
 		*out = append(*out, ent{prefix, f.spell(c, depth+1)})
 	}
+}
+
+func pureDict(c *model.Node) bool {
+	return c.IsSub() && len(c.D) > 0 && len(c.A) == 0 && !c.HasA
+}
+
+// divide distributes the settings of dictionary c over two partial trees.
+func (f *flattener) divide(c *model.Node) (fold, keep *model.Node) {
+	fold, keep = model.Dict(), model.Dict()
+	for _, k := range c.SortedKeys() {
+		ch := c.D[k]
+		x := f.r.Intn(6)
+		switch {
+		case x == 0 && pureDict(ch):
+			a, b := f.divide(ch)
+			if len(a.D) > 0 {
+				fold.D[k] = a
+			}
+			if len(b.D) > 0 {
+				keep.D[k] = b
+			}
+			if len(a.D) > 0 && len(b.D) > 0 {
+				f.deep++
+			}
+		case x < 4:
+			fold.D[k] = ch
+		default:
+			keep.D[k] = ch
+		}
+	}
+	return fold, keep
 }
 
 func (f *flattener) note(key string, segs, depth int) {
@@ -274,6 +299,9 @@ func (f *flattener) shape() string {
 	if f.split > 0 {
 		s += "+split"
 	}
+	if f.deep > 0 {
+		s += "+deepsplit"
+	}
 	if f.inner > 0 {
 		s += "+inner"
 	}
@@ -301,8 +329,11 @@ var ifaceT = reflect.TypeOf((*interface{})(nil)).Elem()
 type fieldSpec struct {
 	tag      string
 	val      interface{}
-	concrete bool
+	concrete bool // field has the value's own type instead of interface{}
+	typedNil int  // for a nil value: 1 = (*string)(nil), 2 = map[string]interface{}(nil), 3 = []interface{}(nil)
 }
+
+var typedNils = []reflect.Type{nil, reflect.TypeOf((*string)(nil)), reflect.TypeOf(map[string]interface{}(nil)), reflect.TypeOf([]interface{}(nil))}
 
 func mkStruct(fs []fieldSpec, ptr bool) interface{} {
 	fields := make([]reflect.StructField, len(fs))
@@ -310,6 +341,9 @@ func mkStruct(fs []fieldSpec, ptr bool) interface{} {
 		ft := ifaceT
 		if f.val != nil && f.concrete {
 			ft = reflect.TypeOf(f.val)
+		}
+		if f.val == nil && f.typedNil > 0 {
+			ft = typedNils[f.typedNil]
 		}
 		fields[i] = reflect.StructField{
 			Name: fmt.Sprintf("F%d", i),
@@ -327,6 +361,10 @@ func mkStruct(fs []fieldSpec, ptr bool) interface{} {
 		return p.Interface()
 	}
 	return p.Elem().Interface()
+}
+
+func fld(tag string, val interface{}, concrete bool) fieldSpec {
+	return fieldSpec{tag: tag, val: val, concrete: concrete}
 }
 
 func ptrTo(v interface{}) interface{} {
@@ -352,7 +390,12 @@ func newBuilder(r *rand.Rand, pathSep bool) *builder {
 func (b *builder) node(s *sp, st int, top bool) interface{} {
 	switch s.kind {
 	case spLeaf:
-		return s.leaf.ToGo()
+		v := s.leaf.ToGo()
+		if v != nil && st == stMixed && b.r.Intn(8) == 0 {
+			b.parts["*T"] = true
+			return ptrTo(v)
+		}
+		return v
 	case spList:
 		return b.list(s, st)
 	}
@@ -467,6 +510,10 @@ func (b *builder) dict(s *sp, st int, top bool) interface{} {
 			}
 			return inner
 		}
+		if b.r.Intn(4) == 0 {
+			b.parts["Config-by-value"] = true
+			return *c
+		}
 		return c
 	case stMapI:
 		b.parts["map[interface]"] = true
@@ -531,7 +578,12 @@ func (b *builder) structOf(s *sp, child int, ptr bool) interface{} {
 		b.parts["*struct"] = true
 	}
 	mk := func(e ent) fieldSpec {
-		return fieldSpec{tag: e.key, val: b.node(e.val, child, false), concrete: b.r.Intn(2) == 0}
+		f := fieldSpec{tag: e.key, val: b.node(e.val, child, false), concrete: b.r.Intn(2) == 0}
+		if f.val == nil && b.r.Intn(2) == 0 {
+			f.typedNil = 1 + b.r.Intn(3)
+			b.parts["typed-nil-field"] = true
+		}
+		return f
 	}
 	var fs []fieldSpec
 	if !b.noInline && len(s.ents) >= 2 && b.r.Intn(4) == 0 {
@@ -578,6 +630,13 @@ func (b *builder) structOf(s *sp, child int, ptr bool) interface{} {
 			fs = append(fs, mk(e))
 		}
 	}
+	if !b.noInline && b.r.Intn(6) == 0 {
+		// a field excluded by its tag must leave no trace
+		b.parts["ignored-field"] = true
+		ign := fieldSpec{tag: gen.Keys[b.r.Intn(len(gen.Keys))] + ",ignore", val: "ignored", concrete: true}
+		pos := b.r.Intn(len(fs) + 1)
+		fs = append(fs[:pos], append([]fieldSpec{ign}, fs[pos:]...)...)
+	}
 	return mkStruct(fs, ptr)
 }
 
@@ -585,6 +644,7 @@ func (b *builder) structOf(s *sp, child int, ptr bool) interface{} {
 
 type kase struct {
 	res     *harness.R
+	idx     int
 	r       *rand.Rand
 	t       *model.Node
 	want    string
@@ -599,7 +659,11 @@ func (k *kase) newFrom(what string, src interface{}, opts []ucfg.Option) (c *ucf
 	k.res.Eval(1)
 	p, pv, where := harness.Safe(func() { c, err = ucfg.NewFrom(src, opts...) })
 	if p {
-		k.res.Violate("panic:NewFrom", "NewFrom panicked with %q at %s; %s", pv, where, what)
+		sig := "panic:NewFrom"
+		if reflect.TypeOf(src) == reflect.TypeOf(ucfg.Config{}) {
+			sig += ":config-by-value"
+		}
+		k.res.Violate(sig, "NewFrom panicked with %q at %s; %s", pv, where, what)
 		return nil, nil, false
 	}
 	return c, err, true
@@ -852,6 +916,10 @@ func (k *kase) representations() {
 		base, err, ok := k.newFrom("building the base *Config from "+from, src, nil)
 		if ok && err == nil {
 			k.checkRep("config("+from+")", base, r.Intn(2) == 0)
+			if k.idx < 8 {
+				// the outcome does not depend on the tree: a handful of cases per run
+				k.checkRep("config-by-value", *base, false)
+			}
 		}
 	}
 	// a child handle of a larger config
@@ -1163,20 +1231,20 @@ func (k *kase) structDuplicate(cons string) string {
 	opts := sepOpts
 	switch cons {
 	case "d/same-tag":
-		pair = [2]fieldSpec{{keys[0], v, conc()}, {keys[0], v2, conc()}}
+		pair = [2]fieldSpec{fld(keys[0], v, conc()), fld(keys[0], v2, conc())}
 		desc = [2]string{fmt.Sprintf("`config:%q`=%v", keys[0], v), fmt.Sprintf("`config:%q`=%v", keys[0], v2)}
 		if r.Intn(2) == 0 {
 			opts = nil
 		}
 	case "d/inline-struct-vs-field":
-		in := mkStruct([]fieldSpec{{keys[0], v2, conc()}}, r.Intn(3) == 0)
-		pair = [2]fieldSpec{{keys[0], v, conc()}, {",inline", in, true}}
+		in := mkStruct([]fieldSpec{fld(keys[0], v2, conc())}, r.Intn(3) == 0)
+		pair = [2]fieldSpec{fld(keys[0], v, conc()), fld(",inline", in, true)}
 		desc = [2]string{fmt.Sprintf("`config:%q`=%v", keys[0], v), fmt.Sprintf("`config:\",inline\"` struct{`config:%q`=%v}", keys[0], v2)}
 		if r.Intn(2) == 0 {
 			opts = nil
 		}
 	case "d/inline-map-vs-field":
-		pair = [2]fieldSpec{{keys[0], v, conc()}, {",inline", map[string]interface{}{keys[0]: v2}, true}}
+		pair = [2]fieldSpec{fld(keys[0], v, conc()), fld(",inline", map[string]interface{}{keys[0]: v2}, true)}
 		desc = [2]string{fmt.Sprintf("`config:%q`=%v", keys[0], v), fmt.Sprintf("`config:\",inline\"` map{%q:%v}", keys[0], v2)}
 		if r.Intn(2) == 0 {
 			opts = nil
@@ -1184,12 +1252,12 @@ func (k *kase) structDuplicate(cons string) string {
 	case "d/dotted-tag-vs-nested":
 		var nested interface{} = map[string]interface{}{keys[1]: v}
 		if r.Intn(2) == 0 {
-			nested = mkStruct([]fieldSpec{{keys[1], v, conc()}}, r.Intn(3) == 0)
+			nested = mkStruct([]fieldSpec{fld(keys[1], v, conc())}, r.Intn(3) == 0)
 		}
-		pair = [2]fieldSpec{{keys[0] + "." + keys[1], v2, conc()}, {keys[0], nested, conc()}}
+		pair = [2]fieldSpec{fld(keys[0]+"."+keys[1], v2, conc()), fld(keys[0], nested, conc())}
 		desc = [2]string{fmt.Sprintf("`config:%q`=%v", keys[0]+"."+keys[1], v2), fmt.Sprintf("`config:%q`={%q:%v}", keys[0], keys[1], v)}
 	case "d/dotted-tag-below-scalar":
-		pair = [2]fieldSpec{{keys[0] + "." + keys[1], v2, conc()}, {keys[0], v, conc()}}
+		pair = [2]fieldSpec{fld(keys[0]+"."+keys[1], v2, conc()), fld(keys[0], v, conc())}
 		desc = [2]string{fmt.Sprintf("`config:%q`=%v", keys[0]+"."+keys[1], v2), fmt.Sprintf("`config:%q`=%v", keys[0], v)}
 	}
 	counts := map[string]int{}
@@ -1275,7 +1343,7 @@ func (check) Run(seed int64, tier string, idx int, verbose bool) harness.Result 
 	for try := 0; try < 4 && idx%4 != 0 && levels(t) < 2; try++ {
 		t = gen.TopDict(r, o, depth)
 	}
-	k := &kase{res: res, r: r, t: t, want: t.Canon(), verbose: verbose}
+	k := &kase{res: res, idx: idx, r: r, t: t, want: t.Canon(), verbose: verbose}
 	if levels(t) >= 2 && leaves(t) >= 3 {
 		res.Key(t.String())
 	}
